@@ -209,7 +209,8 @@ Qed.
 Lemma step_inv : forall dflt st o, (dflt = true -> default_duration o = true) -> inv dflt st -> inv dflt (step st o).
 Proof.
   intros dflt st o Hdd Hinv. pose proof Hinv as [Hlr Hg].
-  destruct o as [level g dur snaps | level t snaps | g snaps | s | rs | rq rs | s | d]; unfold step.
+  destruct o as [hg hsn hsc hf | level g dur snaps | level t snaps | g snaps | s | rs | rq rs | s | d]; unfold step.
+  - exact Hinv.
   - split; [exact Hlr|]. cbn [st_gating st_lastref st_now]. apply hold_refresh_inv; [exact Hinv|].
     intros Hdf Hgs. specialize (Hdd Hdf). cbn [default_duration] in Hdd.
     destruct (g =? system)%N eqn:E; [apply N.eqb_eq in E; contradiction | cbn [orb] in Hdd; lia].
@@ -256,8 +257,9 @@ Qed.
 Lemma step_first : forall st o s g h,
   st_gating (step st o) s g = Some h -> h_first h = first_of (st_now st) (st_gating st) s g.
 Proof.
-  intros st o s g h. destruct o as [level g0 dur snaps | level t snaps | g0 snaps | s0 | rs | rq rs | s0 | d]; unfold step;
+  intros st o s g h. destruct o as [hg hsn hsc hf | level g0 dur snaps | level t snaps | g0 snaps | s0 | rs | rq rs | s0 | d]; unfold step;
     cbn [st_gating]; intros H.
+  - unfold first_of. rewrite H. reflexivity.
   - eapply hold_refresh_first; exact H.
   - eapply hold_refresh_first; exact H.
   - apply proceed_sub in H. unfold first_of. rewrite H. reflexivity.
@@ -416,7 +418,7 @@ Qed.
 Lemma step_sys_untouched : forall st o s, sys_untouched s o = true ->
   st_gating (step st o) s system = st_gating st s system.
 Proof.
-  intros st o s H. destruct o as [level g dur snaps | level t snaps | g snaps | s0 | rs | rq rs | s0 | d]; unfold step; cbn [st_gating];
+  intros st o s H. destruct o as [hg hsn hsc hf | level g dur snaps | level t snaps | g snaps | s0 | rs | rq rs | s0 | d]; unfold step; cbn [st_gating];
     try reflexivity; cbn [sys_untouched] in H.
   - assert (Hc : system <> g \/ ~ In s snaps).
     { apply orb_prop in H. destruct H as [H|H]; [left; intros <-; discriminate | right; rewrite <- mem_In; destruct (mem s snaps); [discriminate | discriminate]]. }
@@ -522,6 +524,80 @@ Proof.
   - destruct Hc as [Hc|Hc]; [contradiction|]. rewrite sys_until_now. f_equal. lia.
   - rewrite sys_until_exact by assumption. reflexivity.
 Qed.
+
+(* ------------------------------------------------------------------ hook runs *)
+Lemma run_app : forall l1 l2 st, run st (l1 ++ l2) = run (run st l1) l2.
+Proof. intros. unfold run. apply fold_left_app. Qed.
+
+(* a history with hook runs is the primitive history obtained by expanding every hook run *)
+Theorem hrun_expand : forall ops st, hrun st ops = run st (expand_all ops).
+Proof.
+  unfold hrun, expand_all. induction ops as [|o r IH]; intros st; cbn [fold_left flat_map]; [reflexivity|].
+  rewrite run_app, IH. reflexivity.
+Qed.
+
+(* a hook run only issues default-duration requests of its gating snap *)
+Lemma hook_ops_default : forall g snaps script fails, forallb default_duration (hook_ops g snaps script fails) = true.
+Proof.
+  intros. unfold hook_ops. rewrite forallb_app. apply andb_true_intro. split.
+  - induction script as [|c r IH]; [reflexivity|]. cbn [flat_map]. rewrite forallb_app, IH.
+    destruct c; cbn; [rewrite orb_true_r|]; reflexivity.
+  - destruct (last_action script) as [[|]|]; destruct fails; cbn; try rewrite orb_true_r; reflexivity.
+Qed.
+
+Theorem expand_default : forall ops, forallb default_duration ops = true -> forallb default_duration (expand_all ops) = true.
+Proof.
+  unfold expand_all. induction ops as [|o r IH]; intros H; [reflexivity|].
+  cbn [forallb] in H. apply andb_prop in H. destruct H as [H1 H2].
+  cbn [flat_map]. rewrite forallb_app, (IH H2), andb_true_r.
+  destruct o; try (cbn [expand forallb]; rewrite H1; reflexivity). apply hook_ops_default.
+Qed.
+
+(* what a hook run amounts to. A hook that asked for --hold (granted or refused) does nothing more, whether it then
+   exits 0 or fails: in particular a refused --hold followed by a failing hook does not hold again. A hook that says
+   nothing holds with the defaults when it fails and proceeds when it succeeds. *)
+Theorem hook_hold_is_one_hold : forall st g snaps fails,
+  hstep st (Hook g snaps [CmdHold] fails) = step st (Hold 0 g 0 snaps).
+Proof. reflexivity. Qed.
+Theorem hook_silent_failing_holds : forall st g snaps, hstep st (Hook g snaps [] true) = step st (Hold 0 g 0 snaps).
+Proof. reflexivity. Qed.
+Theorem hook_silent_ok_proceeds : forall st g snaps, hstep st (Hook g snaps [] false) = step st (Proceed g []).
+Proof. reflexivity. Qed.
+
+(* a hook run with one --hold never restarts an episode: a record that is there before and after keeps its first-held *)
+Theorem hook_hold_keeps_episode : forall st g snaps fails s g' h h',
+  st_gating st s g' = Some h -> st_gating (hstep st (Hook g snaps [CmdHold] fails)) s g' = Some h' -> h_first h' = h_first h.
+Proof.
+  intros st g snaps fails s g' h h' H H'. rewrite hook_hold_is_one_hold in H'.
+  apply step_first in H'. rewrite H'. unfold first_of. rewrite H. reflexivity.
+Qed.
+
+(* the 48 h theorem over histories with hook runs: episodes are those of the expanded primitive history *)
+Theorem other_48h_hooks : forall lr0 now0 ops st ep,
+  (forall s, lr0 s <= now0) -> forallb default_duration ops = true ->
+  run_ep (init_state lr0 now0) no_episodes (expand_all ops) = (st, ep) ->
+  st = hrun (init_state lr0 now0) ops /\
+  forall level s g, g <> system -> g <> s -> effective st level s g = true ->
+  exists t0, ep s g = Some t0 /\ st_now st <= t0 + forty_eight_h.
+Proof.
+  intros lr0 now0 ops st ep Hlr Hdd Hrun. split.
+  - rewrite hrun_expand. pose proof (run_ep_spec (expand_all ops) (init_state lr0 now0) no_episodes) as [H _].
+    rewrite Hrun in H. exact H.
+  - eapply other_48h; [exact Hlr | apply expand_default; exact Hdd | exact Hrun].
+Qed.
+
+(* the code as it is lets a hook start a new episode by itself: --hold refused at the bound (records deleted), then a
+   second --hold in the same run; or --hold refused, --proceed, exit non-zero (the fallback holds). *)
+Definition rehold_script_witness : list op :=
+  [Hook 1 [2%N] [CmdHold] false; Tick (Z.to_N (48 * h_ns)); Hook 1 [2%N] [CmdHold; CmdHold] false; Tick (Z.to_N h_ns)].
+Definition rehold_fallback_witness : list op :=
+  [Hook 1 [2%N] [CmdHold] false; Tick (Z.to_N (48 * h_ns)); Hook 1 [2%N] [CmdHold; CmdProceed] true; Tick (Z.to_N h_ns)].
+Lemma rehold_witnesses :
+  (let st := hrun (init_state (fun _ => - h_ns) 0) rehold_script_witness in
+   effective st 0 2 1 = true /\ 0 + forty_eight_h < st_now st) /\
+  (let st := hrun (init_state (fun _ => - h_ns) 0) rehold_fallback_witness in
+   effective st 0 2 1 = true /\ 0 + forty_eight_h < st_now st).
+Proof. vm_compute. repeat split; reflexivity. Qed.
 
 (* ------------------------------------------------------------------ witnesses *)
 (* explicit durations are not bounded by 48 h per episode: hold for the default, ask again for 47 h after 47 h *)
